@@ -13,7 +13,7 @@ from fjverif.core import Report, AnalysisError, load_known_findings, _match_know
 PROPS = [f'C{i:02d}' for i in range(1, 21)]
 SUFFIX = '_rn'
 PARAMS = '--params' in sys.argv          # rename parameters (of C static functions / private python functions) instead of locals
-REWRITE = next((a[2:] for a in sys.argv if a in ('--flip', '--invert', '--name', '--all')), None)   # other mechanical rewrites of python functions
+REWRITE = next((a[2:] for a in sys.argv if a in ('--flip', '--invert', '--name', '--all', '--commute', '--reorder')), None)   # other mechanical rewrites of python functions
 SINGLE = '--single' in sys.argv          # one local at a time instead of all locals of a function at once
 
 
